@@ -1238,11 +1238,112 @@ def std_oracle(interp, env, f, args, t, bb, path):
     return TOP
 
 
+REG = "mahf::state::registry::StateRegistry::"
+STATE = "mahf::state::State::"
+# convenience accessors of State and the registry accessor + state type they stand for
+STATE_SUGAR = {
+    "populations": ("borrow", "mahf::state::common::Populations<P>"), "populations_mut": ("borrow_mut", "mahf::state::common::Populations<P>"),
+    "random_mut": ("borrow_mut", "mahf::state::random::Random"), "random": ("borrow", "mahf::state::random::Random"),
+    "log": ("borrow", "mahf::logging::log::Log"), "iterations": ("get_value", "mahf::state::common::Iterations"),
+    "evaluations": ("get_value", "mahf::state::common::Evaluations"), "pareto_front": ("borrow", "mahf::state::common::ParetoFront<P>"),
+}
+# accessor -> [(sibling accessor whose answer can be reused, how to convert it)]
+ACCESSOR_FAMILY = {
+    "borrow": [("borrow_mut", "id"), ("try_borrow", "unwrap"), ("try_borrow_mut", "unwrap")],
+    "borrow_mut": [("borrow", "id"), ("try_borrow_mut", "unwrap"), ("try_borrow", "unwrap")],
+    "try_borrow": [("borrow", "ok"), ("borrow_mut", "ok"), ("try_borrow_mut", "id")],
+    "try_borrow_mut": [("borrow_mut", "ok"), ("borrow", "ok"), ("try_borrow", "id")],
+    "borrow_value": [("borrow_value_mut", "id"), ("try_borrow_value", "unwrap"), ("try_borrow_value_mut", "unwrap"), ("get_value", "id"), ("try_get_value", "unwrap")],
+    "borrow_value_mut": [("borrow_value", "id"), ("try_borrow_value_mut", "unwrap"), ("try_borrow_value", "unwrap")],
+    "try_borrow_value": [("borrow_value", "ok"), ("borrow_value_mut", "ok"), ("try_borrow_value_mut", "id"), ("get_value", "ok"), ("try_get_value", "id")],
+    "try_borrow_value_mut": [("borrow_value_mut", "ok"), ("borrow_value", "ok"), ("try_borrow_value", "id")],
+    "get_value": [("try_get_value", "unwrap"), ("borrow_value", "load"), ("borrow_value_mut", "load"), ("try_borrow_value", "unwrap-load"), ("try_borrow_value_mut", "unwrap-load")],
+    "try_get_value": [("get_value", "ok"), ("borrow_value", "ok-load"), ("borrow_value_mut", "ok-load"), ("try_borrow_value", "okload"), ("try_borrow_value_mut", "okload")],
+    "contains": [("has", "id")], "has": [("contains", "id")],
+}
+
+
 def chain(*oracles):
-    def o(interp, env, f, args, t, bb, path):
+    """first non-TOP answer.  The accessors of the state registry come in families (`borrow` / `borrow_mut` /
+    `try_borrow` / ..., and `State::populations_mut()` = `borrow_mut::<Populations>()`): when the code under evaluation
+    uses a sibling of the accessor a rule modelled, the modelled answer is reused (wrapped in Ok / unwrapped /
+    dereferenced as the sibling's signature requires), so switching between equivalent accessors does not change a
+    verdict."""
+    def base(interp, env, f, args, t, bb, path):
         for orc in oracles:
             r = orc(interp, env, f, args, t, bb, path)
             if r is not TOP:
                 return r
+        return TOP
+
+    def load_(interp, env, v, n=0):
+        while n < 6:
+            n += 1
+            if isinstance(v, Ref):
+                v = interp.read_ref(env, v)
+            elif isinstance(v, HRef):
+                v = href_get(interp, env, v)
+            else:
+                break
+        return v
+
+    def wrap(how, r, interp, env):
+        if r is TOP or r == "DIVERGE" or how == "id":
+            return r
+        if how == "ok":
+            return ok(r)
+        if how in ("unwrap", "unwrap-load", "okload"):
+            if isinstance(r, Agg) and r.name == "core::result::Result":
+                if r.variant != "Ok":
+                    return r if how == "okload" else "DIVERGE"
+                inner = r.fields[0]
+                if how == "unwrap":
+                    return inner
+                inner = load_(interp, env, inner)
+                return inner if how == "unwrap-load" else ok(inner)
+            return TOP
+        if how == "load":
+            return load_(interp, env, r)
+        if how == "ok-load":
+            return ok(load_(interp, env, r))
+        return TOP
+
+    def sibling_call(f, key, name, gargs=None):
+        f2 = dict(f)
+        f2["key"] = key
+        f2["name"] = name
+        f2.pop("resolved", None)
+        if gargs is not None:
+            f2["gargs"] = gargs
+        return f2
+
+    def o(interp, env, f, args, t, bb, path):
+        r = base(interp, env, f, args, t, bb, path)
+        if r is not TOP:
+            return r
+        k = f.get("key") or ""
+        nm = f.get("name")
+        if f.get("_alias"):
+            return TOP
+        tries = []       # (call description, conversion)
+        if k.startswith(STATE) and nm in STATE_SUGAR:
+            acc, ty = STATE_SUGAR[nm]
+            tries.append((sibling_call(f, REG + acc, acc, [ty]), "id"))
+            for sib, how in ACCESSOR_FAMILY.get(acc, ()):
+                tries.append((sibling_call(f, REG + sib, sib, [ty]), how))
+        elif k.startswith(REG) and nm in ACCESSOR_FAMILY:
+            ga = (f.get("gargs") or [""])[0]
+            for sugar, (acc, ty) in STATE_SUGAR.items():
+                if ty.split("<")[0] == ga.split("<")[0]:
+                    how = "id" if acc == nm else next((h for (a, h) in ACCESSOR_FAMILY[nm] if a == acc), None)
+                    if how is not None:
+                        tries.append((sibling_call(f, STATE + sugar, sugar), how))
+            for sib, how in ACCESSOR_FAMILY[nm]:
+                tries.append((sibling_call(f, REG + sib, sib), how))
+        for f2, how in tries:
+            f2["_alias"] = True
+            r2 = wrap(how, base(interp, env, f2, args, t, bb, path), interp, env)
+            if r2 is not TOP:
+                return r2
         return TOP
     return o
